@@ -51,6 +51,13 @@ DESTS = {
     "disjoint-right": (Affine.translation(40, 0), None),
     "disjoint-up": (Affine.translation(0, -40), None),
     "bigger": (Affine.translation(-3.25, -2.25), (13, 15)),
+    # rotated destinations (Pythagorean rotations), several of them finer than the source: these take the general
+    # (non-linear) dependency path of grid_intersect even though the CRS is shared
+    "rot-7-24-25": (Affine.translation(1.8, -0.2) * Affine(24 / 25, -7 / 25, 0, 7 / 25, 24 / 25, 0), (9, 9)),
+    "rot-3-4-5-fine": (Affine.translation(3.1, -1.4) * Affine(4 / 5, -3 / 5, 0, 3 / 5, 4 / 5, 0) * Affine.scale(0.7), (14, 14)),
+    "rot-small-fine": (Affine.translation(0.753125, 1.028125) * Affine(40 / 41, -9 / 41, 0, 9 / 41, 40 / 41, 0) * Affine.scale(0.45), (20, 22)),
+    "rot-neg-fine": (Affine.translation(-0.4, 2.8) * Affine(12 / 13, 5 / 13, 0, -5 / 13, 12 / 13, 0) * Affine.scale(0.6), (16, 15)),
+    "rot-coarse": (Affine.translation(0.309375, 0.1) * Affine(15 / 17, -8 / 17, 0, 8 / 17, 15 / 17, 0) * Affine.scale(1.7), (6, 6)),
 }
 
 NODATA = ("none", "src", "dst", "both")
@@ -96,8 +103,8 @@ def brute_nearest(src2d, P, dshape, fill):
         for j in range(dshape[1]):
             cx, cy = Fr(2 * j + 1, 2), Fr(2 * i + 1, 2)
             sx, sy = a * cx + b * cy + c, d * cx + e * cy + f
-            if sx.denominator == 1 or sy.denominator == 1:
-                raise AssertionError("alphabet error: destination centre on a source pixel edge")
+            if min(abs(sx - round(sx)), abs(sy - round(sy))) < Fr(1, 10**6) and -1 < sx < W + 1 and -1 < sy < H + 1:
+                raise AssertionError(f"alphabet error: destination centre {(i, j)} within 1e-6 px of a source pixel edge")
             if 0 < sx < W and 0 < sy < H:
                 out[i, j] = src2d[int(sy // 1), int(sx // 1)]
     return out
@@ -242,15 +249,16 @@ def gen_cross(tier):
         for direction in ("3857->4326", "4326->3857"):
             for place in ("inside", "partial-east", "partial-south", "disjoint"):
                 for dtype, nds in (("int16", "both"), ("float32", "none"), ("uint8", "none")):
-                    for sc in ((4, 4), (3, 4)):
+                    for sc in ((4, 4), (3, 4), (1, 1)):
                         for dc in ((4, 4), (5, 7)):
-                            yield (direction, place, dtype, nds, sc, dc)
+                            for zoom in (1, 0.5, 0.3):
+                                yield (direction, place, dtype, nds, sc, dc, zoom)
 
     return g
 
 
 def run_cross(case):
-    direction, place, dtype, nds, sc, dc = case
+    direction, place, dtype, nds, sc, dc, zoom = case
     shape = (8, 8)
     if direction == "3857->4326":
         sg = GeoBox(shape, Affine(1024.0, 0, 1024.0 * 1000, 0, -1024.0, 1024.0 * 5000), "EPSG:3857")
@@ -259,8 +267,11 @@ def run_cross(case):
         sg = GeoBox(shape, Affine(1 / 128, 0, 10.0, 0, -1 / 128, 45.0), "EPSG:4326")
         dcrs, scrs = "EPSG:3857", "EPSG:4326"
     base = sg.to_crs(dcrs)  # destination grid in the other CRS covering the source (construction only)
+    if zoom != 1:
+        base = base.zoom_out(zoom)  # finer destination: several destination pixels per source pixel
     px = abs(base.affine.a)
-    shift = {"inside": (0, 0), "partial-east": (5, 0), "partial-south": (0, 5), "disjoint": (60, 0)}[place]
+    k = 1 / zoom
+    shift = {"inside": (0, 0), "partial-east": (5 * k, 0), "partial-south": (0, 5 * k), "disjoint": (60 * k, 0)}[place]
     dg = GeoBox(base.shape, base.affine * Affine.translation(*shift), dcrs)
     src_nd, dst_nd = nodata_vals(dtype, nds)
     data = src_data(shape, dtype, 0)
@@ -270,7 +281,7 @@ def run_cross(case):
     kw2 = {} if dst_nd is None else dict(dst_nodata=dst_nd)
     whole = xr_reproject(xx, dg, resampling="nearest", **kw2).values
     lazy = xr_reproject(xd, dg, resampling="nearest", chunks=dc, **kw2)
-    r = R(outcome=f"{direction}:{place}:{np.dtype(dtype).kind}:{nds}")
+    r = R(outcome=f"{direction}:{place}:{np.dtype(dtype).kind}:{nds}:z{zoom}")
     try:
         chunked, _ = execute(lazy.data)
     except BlockMismatch as e:
@@ -344,8 +355,72 @@ def run_orders(case):
     return r
 
 
+# -- joint evaluation: two reprojections in one graph must not interfere ---------------------------------------
+VARIATIONS = ("dst_nodata", "src_nodata", "resampling", "dst-shift", "dst-chunks", "time-step", "dtype")
+
+
+def gen_joint(tier):
+    def g():
+        for var in VARIATIONS:
+            for dest in ("outside-left", "subpixel-shift", "rot-3-4-5-fine"):
+                for sc, dc in (((4, 4), (3, 4)), ((8, 8), (5, 7))):
+                    yield (var, dest, sc, dc)
+
+    return g
+
+
+def run_joint(case):
+    """Same chunked source reprojected twice with ONE parameter changed; both results computed in a single
+    dask.compute call must equal the results computed one at a time (graph keys must not collide)."""
+    import dask  # pylint: disable=import-outside-toplevel
+
+    var, dest, sc, dc = case
+    shape = (8, 8)
+    base = dict(dtype="int16", nds="both", resampling="nearest", shift=(0, 0), dc=tuple(dc), t=0)
+    other = dict(base)
+    if var == "resampling":
+        other["resampling"] = "bilinear"
+    elif var == "dst-shift":
+        other["shift"] = (1, 0)
+    elif var == "dst-chunks":
+        other["dc"] = (4, 4) if tuple(dc) != (4, 4) else (2, 8)
+    elif var == "dtype":
+        other["dtype"] = "float32"
+    r = R(outcome=f"joint:{var}")
+
+    def mk(p, which):
+        P, dshape = DESTS[dest]
+        dshape = dshape or shape
+        sg = GeoBox(shape, SRC_A, CRS_M)
+        dg = GeoBox(dshape, SRC_A * P * Affine.translation(*p["shift"]), CRS_M)
+        src_nd, dst_nd = nodata_vals(p["dtype"], p["nds"])
+        if var == "dst_nodata" and which == 1:
+            dst_nd = dst_nd - 1
+        if var == "src_nodata" and which == 1:
+            src_nd = src_nd - 1
+        data = src_data(shape, p["dtype"], 2 if var == "time-step" else 0)
+        if var == "time-step":
+            data = data[which]
+        xd = wrap_xr(da.from_array(data, chunks=tuple(sc), name=f"src-{p['dtype']}-{which if var == 'time-step' else 0}"), sg,
+                     nodata=src_nd)
+        return xr_reproject(xd, dg, resampling=p["resampling"], chunks=p["dc"], dst_nodata=dst_nd)
+
+    a, b = mk(base, 0), mk(other, 1)
+    alone = [execute(a.data)[0], execute(b.data)[0]]
+    with dask.config.set(scheduler="sync"):
+        ja, jb = dask.compute(a.data, b.data)
+    for name, j, al in (("first", ja, alone[0]), ("second", jb, alone[1])):
+        if not same(np.asarray(j), al):
+            r.fail(f"joint:interference:{var}", f"{case}: the {name} of two reprojections differing only in {var} changes when both "
+                                                f"are computed in one graph: {_diff(np.asarray(j), al)}")
+    if same(alone[0], alone[1]) and var in ("dst_nodata", "dst-shift"):
+        r.nontrivial = False
+    return r
+
+
 def slices(tier):
     return [
+        e1.Slice("joint", gen_joint(tier), run_joint, "pairs of reprojections differing in one parameter, computed in one graph"),
         e1.Slice("same-crs", gen_main(tier), run_main, "chunkings x destinations x dtypes x nodata x time"),
         e1.Slice("cross-crs", gen_cross(tier), run_cross, "3857<->4326 coverage/fill classes"),
         e1.Slice("task-orders", gen_orders(tier), run_orders, "E3b: every task order within the deviation bound", shards=3),
